@@ -197,7 +197,7 @@ func vc_C07_cache3() {
 	org := v3.Vec{X: vfReal("o.x"), Y: vfReal("o.y"), Z: vfReal("o.z")}
 	dc := newDcache3(l, org, res, 4)
 	for k := 0; k < 3; k++ {
-		vi := v3i.Vec{X: vfIntN("i.x", k, -8, 8), Y: vfIntN("i.y", k, -8, 8), Z: vfIntN("i.z", k, -8, 8)}
+		vi := v3i.Vec{X: vfIntN("i.x", k, -2100, 2100), Y: vfIntN("i.y", k, -2100, 2100), Z: vfIntN("i.z", k, -2100, 2100)}
 		p, d := dc.evaluate(vi)
 		want := v3.Vec{X: org.X + float64(vi.X)*res, Y: org.Y + float64(vi.Y)*res, Z: org.Z + float64(vi.Z)*res}
 		vfAssert(vfAnd(vfAnd(p.X == want.X, p.Y == want.Y), p.Z == want.Z), "dcache3.evaluate returns the lattice position origin + index*resolution")
@@ -210,3 +210,57 @@ func vc_C07_cache3() {
 	vfReach("cache3")
 }
 
+
+// histories: an octree renderer object that is reused for a different shape with
+// the same bounding box produces exactly what a fresh renderer produces (no
+// state survives a render). Concrete fields with distinct lattice values.
+func vc_C07_renderer_reuse() {
+	box := sdf.Box3{Min: v3.Vec{}, Max: v3.Vec{X: 4, Y: 4, Z: 4}}
+	fa := &vfFieldA{vfHashField{bb: box}}
+	fb := &vfFieldB{vfHashField{bb: box}}
+	n := [2]int{4, 6}[vfCase("cells", 2)]
+	r := NewMarchingCubesOctree(n)
+	ToTriangles(fa, r)
+	second := ToTriangles(fb, r)
+	fresh := ToTriangles(fb, NewMarchingCubesOctree(n))
+	vfReach("reuse")
+	vfAssert(len(fresh) > 0, "the test field produces triangles")
+	vfSameTriangles(second, fresh, "an octree renderer reused for another shape with the same bounding box renders it exactly like a fresh renderer")
+	u := NewMarchingCubesUniform(n)
+	ToTriangles(fa, u)
+	vfSameTriangles(ToTriangles(fb, u), ToTriangles(fb, NewMarchingCubesUniform(n)), "a uniform renderer reused for another shape renders it exactly like a fresh renderer")
+}
+
+// H3: the octree covers the padded bounding box: the root cube starts at the
+// padded box's minimum corner and its side is at least the padded long axis,
+// for cell counts incl. exact powers of two (ground evaluation: Log2/Ceil are concrete).
+func vc_C07_octree_covers_box() {
+	cells := []int{1, 2, 3, 4, 5, 7, 8, 9, 15, 16, 17, 31, 32, 33, 63, 64, 65, 100, 127, 128, 129, 200, 255, 256, 257, 300, 511, 512}
+	shapes := []v3.Vec{{X: 1, Y: 1, Z: 1}, {X: 10, Y: 3, Z: 2}, {X: 0.3, Y: 7, Z: 7}, {X: 2, Y: 2, Z: 5}}
+	sz := shapes[vfCase("shape", len(shapes))]
+	var root *cube
+	var rootDc *dcache3
+	vfStub("(*github.com/deadsy/sdfx/render.dcache3).processCube", func(dc *dcache3, c *cube, out sdf.Triangle3Writer) {
+		if root == nil {
+			root, rootDc = c, dc
+		}
+	})
+	for _, n := range cells {
+		root = nil
+		bb := sdf.Box3{Min: v3.Vec{X: -1, Y: 2, Z: 0.5}, Max: v3.Vec{X: -1 + sz.X, Y: 2 + sz.Y, Z: 0.5 + sz.Z}}
+		f := &vfHashField{bb: bb}
+		(&MarchingCubesOctree{meshCells: n}).Render(f, sdf.NewTriangle3Buffer(nil))
+		vfAssert(root != nil, "the octree renderer processes a root cube")
+		if root == nil {
+			continue
+		}
+		side := float64(int(1)<<root.n) * rootDc.resolution
+		lo := rootDc.origin.Add(v3.Vec{X: float64(root.v.X), Y: float64(root.v.Y), Z: float64(root.v.Z)}.MulScalar(rootDc.resolution))
+		// the root cube contains the bounding box with a margin on every side (the surface may touch the box)
+		eps := 1e-9
+		ok := lo.X < bb.Min.X-eps && lo.Y < bb.Min.Y-eps && lo.Z < bb.Min.Z-eps &&
+			lo.X+side > bb.Max.X+eps && lo.Y+side > bb.Max.Y+eps && lo.Z+side > bb.Max.Z+eps
+		vfAssert(ok, "the octree root cube strictly contains the bounding box of the shape (padding on every side)")
+	}
+	vfReach("covers")
+}
